@@ -225,10 +225,41 @@ def r3_bytes_from_input_only(cx):
         cx.check("frame-zero-init:_%d" % arr, len(defs) == 1 and len(zero) == 1, site_of(fp), "address array is zero-initialised once")
 
 
+def r4_address_is_the_bytes_read(cx):
+    """The dissected address is the bytes at the standard position with the standard length: Address::read_from_fixed
+    returns Address { data, len } with `len` its own parameter and `data` the buffer it read into - no
+    canonicalisation, folding or re-interpretation afterwards (an IPv4-mapped IPv6 address stays 16 bytes)."""
+    prog = cx.prog
+    rff = A.method(prog, "Address", "read_from_fixed")
+    cx.touch(rff)
+    oks = [(bi, info) for kind, bi, info in result_return_sites(rff) if kind == "ok"]
+    cx.floor("ok-returns", len(oks), 1, "Ok(..) return sites of read_from_fixed")
+    reads = [ci for ci, ct in rff.calls() if callee_is(ct, "io::Read::read_exact")]
+    for bi, info in oks:
+        o = origin(rff, info["rv"]["ops"][0])
+        ok = False
+        why = "the returned value is not a plain Address { data, len } (%s)" % o[0]
+        if o[0] == "rvalue" and o[2]["rv"].get("agg") == "adt" and o[2]["rv"].get("adt", "").endswith("types::Address"):
+            rv = o[2]["rv"]
+            lop = rv["ops"][rv["fields"].index("len")]
+            dop = rv["ops"][rv["fields"].index("data")]
+            lr = op_root(rff, lop) if op_place(lop) is not None else None
+            dr = op_root(rff, dop) if op_place(dop) is not None else None
+            buf_ok = False
+            for ci in reads:
+                r2 = deep_root(rff, rff.blocks[ci]["term"]["args"][1])
+                if r2 is not None and dr is not None and r2["l"] == dr["l"]:
+                    buf_ok = True
+            ok = lr is not None and lr["l"] == 2 and not lr.get("p") and buf_ok
+            why = "Address { data: <buffer filled by read_exact>, len: <parameter> }"
+        cx.check("returns-bytes-as-read", ok, site_of(rff, bi), "read_from_fixed returns " + why)
+
+
 RULES = [
     ("C19.R1", r1_total, "totality of Frame::parse / Packet::parse: every panic site proved by interval analysis (no table)"),
     ("C19.R2", r2_offsets_fit_guards, "offsets and sizes equal the header layouts and fit the dominating length tests"),
     ("C19.R3", r3_bytes_from_input_only, "address bytes come from the input and zero initialisers only"),
+    ("C19.R4", r4_address_is_the_bytes_read, "the dissected address is the bytes read, with the length asked for (no canonicalisation)"),
 ]
 
 LEVEL_TEXT = ("Totality and layout rules on MIR: every panic-capable construct reachable from the two dissectors is proved unable to fire by the "
